@@ -171,11 +171,11 @@ def build_cases(tier: str, seed: int) -> tuple[list[dict[str, Any]], dict[str, A
             for depth in (1, 3):
                 add("all3-outside", [1, 2, 3], E, depth, [], False)
         g4 = iso_graphs([1, 2, 3, 4])
-        pick = rnd.sample(range(len(g4)), 1024)
+        pick = rnd.sample(range(len(g4)), 768)
         for gi in sorted(pick):
             for depth in (1, 2, 3):
                 add("iso4-sample", [1, 2, 3, 4], g4[gi], depth, [], False)
-        info["iso4-sample"] = "1024 of the 4096 four-session graphs (seeded sample) x depth{1,2,3}, skip {}"
+        info["iso4-sample"] = "768 of the 4096 four-session graphs (seeded sample) x depth{1,2,3}, skip {}"
         ndraw = 2000
     for _ in range(ndraw):
         c = random_case(rnd)
@@ -353,7 +353,7 @@ def selftest(traces: list[dict[str, Any]], verdicts: dict[int, tuple[str, list[s
     own ECU model must be rejected by TLC with the expected clause."""
     base = None
     for i, t in enumerate(traces):
-        if (verdicts[i][0] == "ok" and t["end"] == "done" and not t["skip"] and len(t["result"]) >= 3
+        if (verdicts[i][0] == "ok" and t["end"] == "done" and not t["skip"]
                 and any(len(r["st"]) >= 2 for r in t["rows"]) and len(t["result"]) < len(t["sessions"])):
             base = t
             break
